@@ -162,7 +162,7 @@ def main():
                     ok_all = False
                     continue
                 try:
-                    res, err = evaluate(env, [for_pid] if for_pid else IDS)
+                    res, err = evaluate(env, [for_pid] if for_pid else ([prop] if "--owning-only" in args else IDS))
                 finally:
                     restore()
                 if res is None:
